@@ -31,6 +31,7 @@ type Oblig struct {
 	Secs    float64
 	Model   string
 	Output  string
+	ReplayInfo map[string]any
 }
 
 type region struct {
